@@ -1353,6 +1353,7 @@ impl Gc {
                 header as *const GcHeader as usize,
                 header.owner,
                 header.freed.get(),
+                std::any::type_name::<T>().ends_with("thread::Thread"),
             ) {
                 return seen;
             }
